@@ -1963,6 +1963,37 @@ class EntityInst(Instance):
             ");",
         ]
 
+    @staticmethod
+    def _convert_formal(port_name: str, port_decl, actual) -> str:
+        # The formal of an output port is wrapped in a type conversion
+        # when the VHDL type of the connected object differs
+        # (BitVector <-> Unsigned/Signed of the same width).
+        formal_type = type(TypeQualifier.decay(port_decl))
+
+        if not issubclass(formal_type, BitVector):
+            return port_name
+
+        actual_type = type(TypeQualifier.decay(actual._root))
+
+        for ref_spec in actual._ref_spec:
+            if issubclass(actual_type, Array):
+                assert isinstance(ref_spec, Offset), "Array slices are not implemented"
+                actual_type = actual_type._elemtype_
+
+        def kind(t):
+            if issubclass(t, Signed):
+                return "signed"
+            if issubclass(t, Unsigned):
+                return "unsigned"
+            return "std_logic_vector"
+
+        if not issubclass(actual_type, BitVector) or kind(actual_type) == kind(
+            formal_type
+        ):
+            return port_name
+
+        return f"{kind(actual_type)}({port_name})"
+
     def _port_map(self) -> list[str]:
         if len(self._ports) == 0:
             return []
@@ -1978,6 +2009,9 @@ class EntityInst(Instance):
                 )
             else:
                 local = self._scope.format_target(self._ports[port_name])
+                port_name = self._convert_formal(
+                    port_name, port_decl, self._ports[port_name]
+                )
 
             port_map.append((port_name, local))
 
